@@ -29,6 +29,7 @@ func builderList(thorough bool) []builder {
 		{name: "macho", fn: buildMachO(thorough), skip: appleDigest, substitute: appleSubst},
 		{name: "dmg", fn: buildDMG, skip: appleDigest, substitute: appleSubst},
 		{name: "xar", fn: buildXAR},
+		{name: "xar-twin", fn: buildXARTwin(thorough)},
 		{name: "deb", fn: buildDEB, skip: noECDSA},
 		{name: "rpm", fn: buildRPM, skip: noECDSA},
 		{name: "pgp-clearsign", fn: buildPGPClear, skip: noECDSA},
